@@ -332,10 +332,17 @@ class Slicer:
             step = None
         return slice(start, stop, step)
 
+    def _copy_without_cached_geometry(self):
+        """ @private A copy whose shape and size are computed afresh (they are cached properties). """
+        new_slicer = copy(self)
+        new_slicer.__dict__.pop('shape', None)
+        new_slicer.__dict__.pop('size', None)
+        return new_slicer
+
     def __getitem__(self, item):
         # negative indexing not supported
         if isinstance(self.slices, list):
-            new_slicer = copy(self)
+            new_slicer = self._copy_without_cached_geometry()
             new_slicer.slices = new_slicer.slices.__getitem__(item)
             return new_slicer
 
@@ -349,7 +356,7 @@ class Slicer:
                 col = item[1]
                 item = (item[0], slice(col, col + 1))
             if isinstance(item[0], slice) and isinstance(item[1], slice):
-                new_slicer = copy(self)
+                new_slicer = self._copy_without_cached_geometry()
                 new_slicer.items = item
                 new_slicer.slices = (Slicer._process_sub_slice(self.slices[0], item[0], self.row_labels),
                                      Slicer._process_sub_slice(self.slices[1], item[1], self.col_labels))
